@@ -439,6 +439,19 @@ func histClass(a, b string) string {
 	return "after:statement-cut-or-rejected-elsewhere"
 }
 
+// histClassMulti classifies a longer history: hook state survives statements
+// that do not touch that hook, so the class is that of the latest history
+// element that pairs with a feature `then` actually has; otherwise the class
+// of the last element.
+func histClassMulti(history []string, then string) string {
+	for i := len(history) - 1; i >= 0; i-- {
+		if c := histClass(history[i], then); strings.Contains(c, ";then:statement-with-") {
+			return c
+		}
+	}
+	return histClass(history[len(history)-1], then)
+}
+
 // checkHistory parses the history then `then` on one semantic parser and
 // compares `then` with a fresh parser.
 func checkHistory(c histCase, want obs) (ok bool, shape, detail string) {
@@ -608,7 +621,7 @@ func main() {
 	}
 
 	// --- part 1a: BFS over viable prefixes.
-	maxLen := r.Pick(11, 14)
+	maxLen := r.Pick(12, 14)
 	if s := os.Getenv("C18_LEN"); s != "" {
 		fmt.Sscanf(s, "%d", &maxLen)
 	}
@@ -676,13 +689,18 @@ func main() {
 	}
 
 	// --- part 1b: every grammar statement up to a length, and its single-token mutations.
-	sentLen := r.Pick(13, 14)
+	sentLen := r.Pick(14, 15) // statements enumerated (accept side)
+	mutLen := r.Pick(12, 14)  // statements whose single-token mutations are all tried
+	if s := os.Getenv("C18_SENT"); s != "" {
+		fmt.Sscanf(s, "%d", &sentLen)
+		mutLen = sentLen
+	}
 	var sentences [][]recog.Kind
 	table.Sentences(sentLen, func(ks []recog.Kind) bool {
 		sentences = append(sentences, append([]recog.Kind{}, ks...))
 		return true
 	})
-	var mutEval, mutRendered, sentRendered int64
+	var mutEval, mutRendered, sentRendered, mutated int64
 	common.ParallelFor(len(sentences), func(i int) {
 		if r.OutOfTime() {
 			return
@@ -714,6 +732,10 @@ func main() {
 				r.Fail(f)
 			}
 		}
+		if len(s) > mutLen {
+			return
+		}
+		atomic.AddInt64(&mutated, 1)
 		for pos := 0; pos <= len(s); pos++ {
 			if pos < len(s) {
 				// deletion
@@ -733,6 +755,8 @@ func main() {
 		}
 	})
 	r.Set("sentences_max_length", sentLen)
+	r.Set("sentences_mutated_max_length", mutLen)
+	r.Set("sentences_mutated", int(mutated))
 	r.Set("sentences", len(sentences))
 	r.Set("sentences_rendered", int(sentRendered))
 	r.Set("sentence_mutations", int(mutEval))
@@ -829,7 +853,7 @@ func main() {
 			t := trs[i]
 			c := histCase{[]string{t.a, t.b}, t.c}
 			if ok, shape, d := checkHistory(c, fresh[t.c]); !ok {
-				r.Fail(common.Failure{Check: "history", Class: histClass(t.b, t.c), Shape: shape, Case: c, Detail: d})
+				r.Fail(common.Failure{Check: "history", Class: histClassMulti([]string{t.a, t.b}, t.c), Shape: shape, Case: c, Detail: d})
 			}
 		})
 		triples = len(trs)
@@ -843,7 +867,7 @@ func main() {
 	nStmt := 0
 	stmtSeen.Range(func(_, _ interface{}) bool { nStmt++; return true })
 	r.Set("distinct_nontrivial", nStmt)
-	r.Set("rule", fmt.Sprintf("BFS: every viable token prefix of length < %d extended by each of the %d token kinds; statements: every derivable statement of at most %d tokens with every single-token deletion, insertion and substitution; statelessness: every token prefix of every corpus statement, every corpus statement and %d semantically rejected statements, each followed by each of %d corpus statements on one SemanticBQL parser; distinct_nontrivial = distinct token sequences evaluated that are grammar statements (accept side)", completed+1, len(allKind), sentLen, len(extraFirst), len(usable)))
+	r.Set("rule", fmt.Sprintf("BFS: every viable token prefix of length < %d extended by each of the %d token kinds; statements: every derivable statement of at most %d tokens, and for those of at most %d tokens every single-token deletion, insertion and substitution; statelessness: every token prefix of every corpus statement, every corpus statement and %d semantically rejected statements, each followed by each of %d corpus statements on one SemanticBQL parser; distinct_nontrivial = distinct token sequences evaluated that are grammar statements (accept side)", completed+1, len(allKind), sentLen, mutLen, len(extraFirst), len(usable)))
 	r.Sample(seqCase{Tokens: recog.KindNames(sentences[len(sentences)/2]), Text: func() string { s, _ := recog.Render(sentences[len(sentences)/2]); return s }(), Origin: "sentence"})
 	r.Sample(histCase{History: []string{firsts[len(firsts)/3]}, Then: usable[6%len(usable)]})
 	r.Sample(histCase{History: []string{extraFirst[0]}, Then: usable[5%len(usable)]})
